@@ -302,15 +302,15 @@ func c12worker(c *hx.Ctx) int {
 		return true
 	})
 	gen.Schemas(2, 0, 1, func(o int, s string) bool {
+		if c.Quick() && o%8 != 0 {
+			return true // quick: an eighth of the pairs; thorough: all
+		}
 		if !mine() {
 			return true
 		}
 		if c.Expired() {
 			rep.Exhaustive = false
 			return false
-		}
-		if c.Quick() && o%8 != 0 {
-			return true // quick: an eighth of the pairs; thorough: all
 		}
 		doSchema(s)
 		return true
